@@ -437,6 +437,7 @@ impl TCheck for C07 {
             record_events: true,
             hard_fault: false,
             one_cpu: false,
+            post: None,
         }
     }
     fn history_oracle(&self, events: &[Event], _report: &BodyReport) -> Vec<String> {
